@@ -35,7 +35,7 @@ func TestC08(t *testing.T) {
 	run := rt.Start(t, "C08")
 	defer run.Finish()
 	r := run.Rand()
-	n := run.N(400, 12000)
+	n := run.N(800, 12000)
 	for i := 0; i < n && !run.Stop(); i++ {
 		cr := r.Fork()
 		fr := runSeq(cr, 30)
